@@ -100,7 +100,8 @@ def decode (n : Nat) (bs : List Nat) : Res := (decode? n bs).getD (.err .unexpec
 def decodeM? (n : Nat) (chunks : List (List Nat)) : Option Res := decode? n chunks.flatten
 
 /-- `prefix_string::encode(size, flags, value, buf)`: the bytes written; always Huffman-coded.
-    `none` = panic.  `flags << 1 | 1` on `u8` drops the top bit of `flags`. -/
+    `none` = panic.  Over `Huffman.hencode?` (positions in `Nat`): the code for values whose coding fits the
+    encoder's `u32` positions (`encodeC?` below; D-15e).  `flags << 1 | 1` on `u8` drops the top bit of `flags`. -/
 def encode? (n flags : Nat) (value : List Nat) : Option (List Nat) :=
   match Huffman.hencode? value with
   | none => none
@@ -112,5 +113,21 @@ def encode? (n flags : Nat) (value : List Nat) : Option (List Nat) :=
       | some pre => some (pre ++ encoded)
 
 def encode (n flags : Nat) (value : List Nat) : List Nat := (encode? n flags value).getD []
+
+/-- `prefix_string::encode` over the Huffman encoder with its machine arithmetic made explicit
+    (`Huffman.hencodeC`: `g` = the shape of `put`, `grow` = the growth policy of `Vec`): `none` = panic, now
+    including the overflow of the encoder's `u32` positions; `.tooLong` = `Err(Error::HuffmanEncoding(_))`
+    (repaired shape only; nothing has been written to `buf`).  `C15_string_literal_encode`: `some (.ok (encode n
+    flags value))` whenever the coding fits (`7·L < 2^32`). -/
+def encodeC? (g : Bool) (grow : Nat → Nat → Nat) (n flags : Nat) (value : List Nat) : Option Huffman.EncOut :=
+  match Huffman.hencodeC g grow value with
+  | none => none
+  | some .tooLong => some .tooLong
+  | some (.ok encoded) =>
+    if n = 0 then none
+    else
+      match PrefixInt.encode? (n - 1) ((flags * 2) % 256 ||| 1) encoded.length with
+      | none => none
+      | some pre => some (.ok (pre ++ encoded))
 
 end H3.PrefixString
